@@ -145,16 +145,53 @@ def read_raw(path, group="/", extra=False):
     return out
 
 
+def empty_epoch_expected(L, b):
+    """LABELLING ONLY (never decides pass/fail): does a buffer-bounded row partition of a merge whose combined number of
+    records per bin1 row is L contain an epoch without records?  With the documented greedy rule (an epoch is extended
+    while it holds <= b records; a single row with > b records forms its own epoch) an epoch starts on an empty row only at
+    row 0 or right after an over-buffer row, and it stays empty iff the next non-empty row is itself over-buffer."""
+    n = len(L)
+    for r in range(n):
+        if L[r] > b and r > 0 and L[r - 1] == 0:
+            e = r
+            while e > 0 and L[e - 1] == 0:
+                e -= 1
+            if e == 0 or L[e - 1] > b:
+                return True
+    return False
+
+
+def _rowlens(chunks, nbins, distinct=False):
+    L = [0] * nbins
+    seen = set()
+    for c in chunks:
+        for r in c:
+            if distinct and (r[0], r[1]) in seen:
+                continue
+            seen.add((r[0], r[1]))
+            L[r[0]] += 1
+    return L
+
+
 def input_kind(spec):
-    n = len(spec["chunks"])
-    total = sum(len(c) for c in spec["chunks"])
-    if n > spec["max_merge"] > 0 and n <= 3:
+    """kind of input, computed from the input alone; used in failure signatures"""
+    ch = spec["chunks"]
+    n = len(ch)
+    nb = spec.get("nbins", 3)
+    b = spec.get("mergebuf") or 10 ** 9
+    total = sum(len(c) for c in ch)
+    two = n > spec["max_merge"] > 0
+    if two and n <= 3:
         return "two-pass-with-2-or-3-chunks"
     if total == 0:
         return "all-chunks-empty"
-    if n > spec["max_merge"] > 0:
-        return "two-pass"
-    return "one-pass"
+    if not two:
+        e = empty_epoch_expected(_rowlens(ch, nb), b)
+    else:
+        # first level: some contiguous group of chunks; second level: over-approximated by the all-chunk row lengths
+        e = any(empty_epoch_expected(_rowlens(ch[i:j], nb), b) for i in range(n) for j in range(i + 1, n + 1))
+        e = e or empty_epoch_expected(_rowlens(ch, nb, distinct=True), b)
+    return "merge-epoch-without-records" if e else ("two-pass" if two else "one-pass")
 
 
 def exc_signature(contract, e, spec):
@@ -228,7 +265,7 @@ def run_ingest(spec, workdir, cold=False):
     else:
         res.append(check_temp_coolers(spec, rundir, tdirs, left, kind))
     shutil.rmtree(rundir, ignore_errors=True)
-    return res, got if same else None
+    return res, got
 
 
 def check_temp_coolers(spec, rundir, tdirs, left, kind):
@@ -319,7 +356,8 @@ def run_cli_load(spec, workdir):
     expected = aggregate([recs])
     cs = spec["chunksize"]
     nchunks = max(1, math.ceil(len(recs) / cs))
-    pseudo = dict(chunks=[recs[i:i + cs] for i in range(0, len(recs), cs)] or [[]],
+    pseudo = dict(chunks=[recs[i:i + cs] for i in range(0, len(recs), cs)] or [[]], nbins=n,
+                  mergebuf=spec.get("mergebuf") if spec.get("mergebuf") is not None else cs,
                   max_merge=spec.get("max_merge") if spec.get("max_merge") is not None else 200)
     kind = "cli-load," + input_kind(pseudo)
     r = CliRunner().invoke(cli, args)
@@ -344,30 +382,50 @@ def run_cli_load(spec, workdir):
     left = sorted(f for f in os.listdir(rundir) if f not in ("out.cool", "bins.bed", "pix.txt"))
     res.append(R("no-temp-file-outlives-run", not left, spec, left, [], True, f"no-temp-file-outlives-run:{kind}"))
     shutil.rmtree(rundir, ignore_errors=True)
-    return res, got if got == expected else None
+    return res, got
+
+
+class RunTimeout(Exception):
+    pass
+
+
+def _alarm(signum, frame):
+    raise RunTimeout("run exceeded 60 s")
 
 
 def run_spec(spec, workdir, cold=False):
+    import signal
+    old = signal.signal(signal.SIGALRM, _alarm)
+    signal.alarm(60)          # a non-terminating merge plan becomes a recorded failure instead of a hang
     try:
         if spec["kind"] == "cli-load":
             return run_cli_load(spec, workdir)
         return run_ingest(spec, workdir, cold)
+    except RunTimeout as e:
+        return [R("ingest-completes", False, spec, "no result after 60 s", "termination", True, "ingest-completes:timeout")], None
     except Exception as e:   # a bug in the runner itself or an unreadable output file
         return [R("runner-internal", False, spec, f"{type(e).__name__}: {e}\n{traceback.format_exc(limit=-5)}", "no exception",
                   True, f"runner-internal:{type(e).__name__}")], None
+    finally:
+        signal.alarm(0)
+        signal.signal(signal.SIGALRM, old)
 
 
 # ---------------------------------------------------------------- multiprocessing (thorough only)
 _WD = None
 
 
-def _winit(base):
-    global _WD
-    warnings.filterwarnings("ignore")
+def _preimport_dask():
     try:
         import dask.dataframe  # noqa: F401  (the cold-first-call effect is evaluated once, in the parent)
     except Exception:
         pass
+
+
+def _winit(base):
+    global _WD
+    warnings.filterwarnings("ignore")
+    _preimport_dask()
     _WD = os.path.join(base, f"w{os.getpid()}")
     os.makedirs(_WD, exist_ok=True)
 
@@ -436,6 +494,23 @@ def plan_specs(recs, mode, ns, mms, mbs, **kw):
                 yield make_spec(3, mode, round_robin(recs, n), mb, mm, **kw)
 
 
+def many_chunk_specs(ns, mms, mbs, **kw):
+    """n >= 9 chunks: the two-level plan has more than one first-level group only from 9 chunks on (isqrt(n) edges).
+    chunk i holds record i (pixel i mod 6 of the 3-bin upper triangle, value 2**i); every third chunk a second record"""
+    keys = keys_for(3, "upper")
+    for n in ns:
+        chunks = []
+        for i in range(n):
+            c = [[keys[i % 6][0], keys[i % 6][1], 2 ** i]]
+            if i % 3 == 0:
+                k = keys[(i + 2) % 6]
+                c.append([k[0], k[1], 2 ** (18 + i // 3)])
+            chunks.append(c)
+        for mm in mms:
+            for mb in mbs:
+                yield make_spec(3, "upper", chunks, mb, mm, **kw)
+
+
 def group_key(spec):
     """runs with the same key ingest the same multiset of records in the same storage mode"""
     if spec["kind"] == "cli-load":
@@ -452,7 +527,16 @@ def main():
     os.makedirs(work)
     if B.replay_file:
         rec = json.load(open(B.replay_file))
-        res, _ = run_spec(rec["case"], work)
+        cold = "cold-first-call" in str(rec.get("signature", ""))
+        if not cold:
+            _preimport_dask()     # only the cold case is replayed cold
+        case = rec["case"]
+        res = []
+        for c in ([case["reference"], case["this"]] if "this" in case else [case]):
+            r, got = run_spec(c, work, cold=cold)
+            res += r
+            if "this" in case:
+                print("pixel table:", got)
         for r in res:
             print(("ok   " if r["ok"] else "FAIL ") + r["contract"], "" if r["ok"] else f"\n  observed: {r['observed']}\n  expected: {r['expected']}\n  signature: {r['signature']}")
         feed(B, res)
@@ -461,7 +545,7 @@ def main():
     specs = []
     counter = [0]
     if not B.thorough:
-        combos = [(mb, mm) for mb in (1, 2, 3, 4) for mm in (1, 3, 200)]
+        combos = [(mb, mm) for mb in (1, 2, 3, 4) for mm in (200, 3, 1, 3, 200, 2, 200, 3)]
         # exhaustive small scope: 2 bins, <= 3 records, <= 3 ordered chunks (each chunk holding a pixel at most once)
         specs += list(partition_specs(2, "upper", 3, 3, combos, counter))
         # plan x buffer sweep on fixed 5-record multisets over 3 bins
@@ -475,6 +559,9 @@ def main():
         specs += [make_spec(3, "upper", round_robin(R5A, 5, empty_at=e), mb, mm) for e in (0, 2, 4) for mb, mm in ((2, 5), (6, 2))]
         specs += list(plan_specs(R5A, "upper", (1, 4, 5), (1, 2, 5), (4,), delete_temp=False))
         specs += list(plan_specs(R5C, "upper", (4, 5), (1, 3), (2,), delete_temp=False))
+        specs += list(many_chunk_specs((9, 10), (2, 8), (2, 40)))
+        specs += list(many_chunk_specs((16,), (3,), (5,)))
+        specs += list(many_chunk_specs((9,), (4,), (3,), delete_temp=False))
         cli_lines = [[2, 0, 1], [0, 1, 2], [1, 1, 4], [0, 2, 8], [0, 1, 16]]
         for cs in range(1, 7):
             if any(has_inchunk_dup([[min(a, b), max(a, b), v] for a, b, v in cli_lines[i:i + cs]]) for i in range(0, 5, cs)):
@@ -485,14 +572,15 @@ def main():
         B.bound = ("EXHAUSTIVE: all multisets of <=3 records over 2 bins (symmetric-upper) x all assignments to ordered chunks "
                    "(<=3 chunks; every partition in every chunk order, with empty chunks and chunks repeating a pixel of another chunk; "
                    "a chunk holds each pixel at most once), "
-                   "(mergebuf,max_merge) cycled over {1,2,3,4}x{1,3,200}; fixed 5-record multisets over 3 bins x n_chunks 1..5 x "
+                   "(mergebuf,max_merge) cycled over {1,2,3,4}x{200,3,1,3,200,2,200,3}; fixed 5-record multisets over 3 bins x n_chunks 1..5 x "
                    "max_merge 1..5 x mergebuf {1,3,6} (+ leading-empty-row, square, extra float column, ensure_sorted, dict chunks, "
-                   "create_cooler(ordered=False)+explicit temp_dir, empty chunk positions, delete_temp=False sub-sweeps); "
+                   "create_cooler(ordered=False)+explicit temp_dir, empty chunk positions, delete_temp=False sub-sweeps); 9, 10 and 16 chunks "
+                   "(several first-level merge groups) x max_merge {2,8} x mergebuf {2,40}; "
                    "`cooler load -f coo` chunksize 1..6 x 4 (mergebuf,max-merge) settings")
     else:
         grid = [(mb, mm) for mb in range(1, 7) for mm in range(1, 6)]
-        # exhaustive: 3 bins, <=3 records, <=3 chunks, 4 passes over the (mergebuf,max_merge) grid offsets
-        for rep in range(4):
+        # exhaustive: 3 bins, <=3 records, <=3 chunks, 3 passes with different offsets into the (mergebuf,max_merge) grid
+        for rep in range(3):
             counter[0] = rep * 7
             specs += list(partition_specs(3, "upper", 3, 3, grid, counter))
         counter[0] = 3
@@ -508,6 +596,8 @@ def main():
                                      range(1, 6), range(1, 6), (2, 4, 6), **kw))
         specs += [make_spec(3, "upper", round_robin(R5A, n, empty_at=e), mb, mm)
                   for n in (2, 3, 4, 5) for e in range(n) for mb, mm in ((2, 5), (6, 2), (3, 1), (6, 200))]
+        specs += list(many_chunk_specs(range(6, 18), (1, 3, 8), (1, 2, 5, 40)))
+        specs += list(many_chunk_specs((9, 12, 16), (2, 5), (3,), delete_temp=False))
         cli_lines = [[2, 0, 1], [0, 1, 2], [1, 1, 4], [0, 2, 8], [0, 1, 16]]
         for mode in ("upper", "square"):
             for cs in range(1, 7):
@@ -518,7 +608,7 @@ def main():
                     for mm in (None, 1, 2, 3):
                         specs.append(dict(kind="cli-load", nbins=3, mode=mode, lines=cli_lines, chunksize=cs, mergebuf=mb, max_merge=mm))
         # seeded sampling of the plan's full scope: <=5 records over 3 bins, <=4 chunks, mergebuf 1..6, max_merge 1..5, both modes
-        nsamp = 4000
+        nsamp = 3000
         for _ in range(nsamp):
             mode = B.rng.choice(["upper", "upper", "square"])
             keys = keys_for(3, mode)
@@ -542,10 +632,10 @@ def main():
                 kw["delete_temp"] = False
             specs.append(make_spec(3, mode, chunks, B.rng.randint(1, 6), B.rng.choice([1, 2, 3, 4, 5, 200]), **kw))
         B.exhaustive = False
-        B.bound = ("EXHAUSTIVE (chunks hold each pixel at most once): all multisets of <=3 records over 3 bins x all assignments to <=3 ordered chunks (4 offsets into the "
+        B.bound = ("EXHAUSTIVE (chunks hold each pixel at most once): all multisets of <=3 records over 3 bins x all assignments to <=3 ordered chunks (3 offsets into the "
                    "mergebuf 1..6 x max_merge 1..5 grid each); all multisets of <=4 records over 2 bins x <=4 chunks; 2 bins square "
                    "<=3 records x <=3 chunks; four fixed 5-record multisets x n_chunks 1..5 x max_merge 1..5 x mergebuf 1..6 (+ input "
-                   "form / extra column / ensure_sorted / delete_temp=False / empty-chunk-position sub-sweeps); `cooler load` "
+                   "form / extra column / ensure_sorted / delete_temp=False / empty-chunk-position sub-sweeps); 6..17 chunks x max_merge {1,3,8} x mergebuf {1,2,5,40}; `cooler load` "
                    f"chunksize 1..6 x mergebuf x max-merge x mode.  SAMPLED (seeded, {nsamp}): <=5 records over 3 bins x <=4 chunks x "
                    "mergebuf 1..6 x max_merge {1..5,200} x mode")
     B.rule = ("case = one end-to-end ingest (bins, mode, chunks with records in arrival order, mergebuf, max_merge, input form); "
@@ -567,10 +657,8 @@ def main():
     ref = {}
     for spec, (res, got) in zip(specs, outcomes):
         feed(B, res)
-        if got is None and not any(not r["ok"] for r in res):
-            continue
         # cross-run clause: every successful ingest of the same multiset gives the identical pixel table, however the
-        # records were split / ordered / buffered / merged (a failed equality above already records a violation)
+        # records were split / ordered / buffered / merged (compared run against run, not through the expected table)
         if got is not None:
             k = group_key(spec)
             if k not in ref:
